@@ -262,15 +262,34 @@ theorem WF_stepOp {cfg s} (o : Op) (h : WF cfg s) : WF cfg (stepOp cfg o s).1 :=
 
 /-! ### exact description of `restore (save s) t` -/
 
+/-- the built-ins after `restore (save s) t`: those of `t` (re-synced if the default differs), each
+    given back the `whiteChars` it had in `s` -/
+def restoredBuiltins (s t : State) : List Expr :=
+  assignWs (if t.defaultWs != s.defaultWs then (setDefaultWs s.defaultWs t).builtins else t.builtins)
+    (s.builtins.map (·.ws))
+
 /-- what `restore (save s) t` produces: `s`, except that an enabled packrat cache is a *fresh* table of
-    the same kind and size (a disabled one is whatever table was left behind), the built-ins' whitespace
-    sets follow the restored default, user expressions are not touched, and the allocation counter moves on -/
+    the same kind and size (a disabled one is whatever table was left behind), the built-ins are
+    `restoredBuiltins` (equal to `s.builtins` whenever `t`'s built-ins are the same objects, see
+    `restoredBuiltins_eq`), user expressions are not touched, and the allocation counter moves on -/
 def restoredState (s t : State) : State :=
   { s with
     cache := if s.packratEnabled then ⟨t.gen, s.cache.kind⟩ else t.cache
     gen := if s.packratEnabled then t.gen + 1 else t.gen
-    builtins := if t.defaultWs != s.defaultWs then (setDefaultWs s.defaultWs t).builtins else t.builtins
+    builtins := restoredBuiltins s t
     users := t.users }
+
+theorem restoreWs_eq (sv : Saved) (t : State) :
+    restoreWs sv t = { t with
+      defaultWs := sv.defaultWs
+      builtins := assignWs (if t.defaultWs != sv.defaultWs then (setDefaultWs sv.defaultWs t).builtins
+                            else t.builtins) sv.builtinWs } := by
+  unfold restoreWs
+  by_cases hw : t.defaultWs = sv.defaultWs
+  · cases t
+    simp_all
+  · have : (t.defaultWs != sv.defaultWs) = true := by simpa using hw
+    simp [this, setDefaultWs]
 
 theorem restore_raw {cfg : Cfg} (hc : CfgOK cfg) {s t : State} (hs : WF cfg s) (ht : WF cfg t) :
     restore cfg (save cfg s) t = (restoredState s t, none) := by
@@ -291,57 +310,30 @@ theorem restore_raw {cfg : Cfg} (hc : CfgOK cfg) {s t : State} (hs : WF cfg s) (
     have hnd : cfg.compatAll.Nodup := by rw [hc.compatSaved]; decide
     exact restoreCompat_saved cfg.compatAll s.compat d hnd hs.compatKeys hd
   unfold restore
+  rw [restoreWs_eq]
   simp only [inlineLiterals]
-  have hd1 : keys (if t.defaultWs != (save cfg s).defaultWs then setDefaultWs (save cfg s).defaultWs t else t).diag
-      = cfg.diagAll := by
-    split <;> simp [setDefaultWs, ht.diagKeys]
-  have hc1 : keys (if t.defaultWs != (save cfg s).defaultWs then setDefaultWs (save cfg s).defaultWs t else t).compat
-      = cfg.compatAll := by
-    split <;> simp [setDefaultWs, ht.compatKeys]
-  rw [hdiag _ hd1]
+  rw [hdiag _ ht.diagKeys]
   simp only
+  have hcm := hcompat _ ht.compatKeys
   by_cases hp : s.packratEnabled = true
   · have hk := (hs.cache hp).2
     have hsel := (hs.cache hp).1
     simp only [save, hp, if_true, enablePackrat, Bool.false_eq_true, if_false, enablePackratTail]
-    have hcm := hcompat _ hc1
     simp only [save, hp, if_true] at hcm
     cases hkind : s.cache.kind with
     | null => exact absurd hkind hk
     | fifo n =>
       simp only [Cache.sizeAttr, hkind]
-      by_cases hw : t.defaultWs = s.defaultWs
-      · simp only [hw, bne_self_eq_false, Bool.false_eq_true, if_false] at hcm ⊢
-        simp only [restoredState, hp, if_true, hkind, hw, bne_self_eq_false, Bool.false_eq_true, if_false]
-        rw [hcm] <;> (try (cases s; simp_all))
-      · have hw' : (t.defaultWs != s.defaultWs) = true := by simpa using hw
-        simp only [hw', if_true] at hcm ⊢
-        simp only [restoredState, hp, if_true, hkind, hw']
-        simp only [setDefaultWs] at hcm ⊢
-        rw [hcm] <;> (try (cases s; simp_all))
+      simp only [restoredState, restoredBuiltins, hp, if_true, hkind]
+      rw [hcm] <;> (try (cases s; simp_all))
     | unbounded =>
       simp only [Cache.sizeAttr, hkind]
-      by_cases hw : t.defaultWs = s.defaultWs
-      · simp only [hw, bne_self_eq_false, Bool.false_eq_true, if_false] at hcm ⊢
-        simp only [restoredState, hp, if_true, hkind, hw, bne_self_eq_false, Bool.false_eq_true, if_false]
-        rw [hcm] <;> (try (cases s; simp_all))
-      · have hw' : (t.defaultWs != s.defaultWs) = true := by simpa using hw
-        simp only [hw', if_true] at hcm ⊢
-        simp only [restoredState, hp, if_true, hkind, hw']
-        simp only [setDefaultWs] at hcm ⊢
-        rw [hcm] <;> (try (cases s; simp_all))
+      simp only [restoredState, restoredBuiltins, hp, if_true, hkind]
+      rw [hcm] <;> (try (cases s; simp_all))
   · have hp' : s.packratEnabled = false := by simpa using hp
-    have hcm := hcompat _ hc1
     simp only [save, hp', Bool.false_eq_true, if_false] at hcm ⊢
-    by_cases hw : t.defaultWs = s.defaultWs
-    · simp only [hw, bne_self_eq_false, Bool.false_eq_true, if_false] at hcm ⊢
-      simp only [restoredState, hp', Bool.false_eq_true, if_false, hw, bne_self_eq_false]
-      rw [hcm] <;> (try (cases s; simp_all))
-    · have hw' : (t.defaultWs != s.defaultWs) = true := by simpa using hw
-      simp only [hw', if_true] at hcm ⊢
-      simp only [restoredState, hp', Bool.false_eq_true, if_false, hw']
-      simp only [setDefaultWs] at hcm ⊢
-      rw [hcm] <;> (try (cases s; simp_all))
+    simp only [restoredState, restoredBuiltins, hp', Bool.false_eq_true, if_false]
+    rw [hcm] <;> (try (cases s; simp_all))
 
 theorem obs_restoredState (s t : State) : obs (restoredState s t) = obs s := by
   by_cases h : s.packratEnabled = true <;> simp [obs, restoredState, h]
@@ -362,6 +354,7 @@ structure MachOK (cfg : Cfg) (m : Mach) : Prop where
   wf : WF cfg m.st
   frames : ∀ sv ∈ m.stack, SavedOK cfg sv
   noErr : m.ctxErr = false
+  lastOK : ∀ sv, m.last = some sv → SavedOK cfg sv
 
 theorem saveRaises_of_WF {cfg s} (h : WF cfg s) : saveRaises s = false := by
   unfold saveRaises
@@ -375,26 +368,44 @@ theorem saveRaises_of_WF {cfg s} (h : WF cfg s) : saveRaises s = false := by
 theorem MachOK_step {cfg : Cfg} (hc : CfgOK cfg) {m : Mach} (c : Cmd) (h : MachOK cfg m) :
     MachOK cfg (stepCmd cfg c m).1 := by
   cases c with
-  | op o => exact ⟨WF_stepOp o h.wf, h.frames, h.noErr⟩
-  | enter =>
+  | op o => exact ⟨WF_stepOp o h.wf, h.frames, h.noErr, h.lastOK⟩
+  | enter r =>
     simp only [stepCmd, saveRaises_of_WF h.wf, Bool.false_eq_true, if_false]
-    refine ⟨h.wf, ?_, h.noErr⟩
-    intro sv hsv
-    simp only [List.mem_cons] at hsv
-    rcases hsv with rfl | hsv
-    · exact ⟨m.st, h.wf, rfl⟩
-    · exact h.frames sv hsv
-  | exit =>
+    refine ⟨h.wf, ?_, h.noErr, ?_⟩
+    · intro sv hsv
+      simp only [List.mem_cons] at hsv
+      rcases hsv with rfl | hsv
+      · exact ⟨m.st, h.wf, rfl⟩
+      · exact h.frames sv hsv
+    · intro sv hsv
+      cases r with
+      | true => simp at hsv
+      | false => exact h.lastOK sv (by simpa using hsv)
+  | exit v =>
     simp only [stepCmd]
     cases hstk : m.stack with
     | nil => exact h
     | cons sv rest =>
       simp only
-      obtain ⟨s, hs, rfl⟩ := h.frames sv (by rw [hstk]; simp)
+      have hsvok := h.frames sv (by rw [hstk]; simp)
+      obtain ⟨s, hs, rfl⟩ := hsvok
       rw [restore_raw hc hs h.wf]
-      refine ⟨WF_restoredState _ hs, ?_, by simp [h.noErr]⟩
-      intro sv' hsv'
-      exact h.frames sv' (by rw [hstk]; exact List.mem_cons_of_mem _ hsv')
+      refine ⟨WF_restoredState _ hs, ?_, by simp [h.noErr], ?_⟩
+      · intro sv' hsv'
+        exact h.frames sv' (by rw [hstk]; exact List.mem_cons_of_mem _ hsv')
+      · intro sv' hsv'
+        simp only [Option.some.injEq] at hsv'
+        subst hsv'
+        exact ⟨s, hs, rfl⟩
+  | restoreLast =>
+    simp only [stepCmd]
+    cases hl : m.last with
+    | none => exact h
+    | some sv =>
+      simp only
+      obtain ⟨s, hs, rfl⟩ := h.lastOK sv hl
+      rw [restore_raw hc hs h.wf]
+      exact ⟨WF_restoredState _ hs, h.frames, by simp [h.noErr], fun sv' hsv' => h.lastOK sv' (by simpa [hl] using hsv')⟩
 
 theorem MachOK_run {cfg : Cfg} (hc : CfgOK cfg) : ∀ (cs : List Cmd) {m : Mach}, MachOK cfg m →
     MachOK cfg (run cfg cs m)
@@ -410,9 +421,10 @@ theorem run_append (cfg : Cfg) : ∀ (a b : List Cmd) (m : Mach), run cfg (a ++ 
 def depthAfter : List Cmd → Nat → Option Nat
   | [], d => some d
   | .op _ :: r, d => depthAfter r d
-  | .enter :: r, d => depthAfter r (d + 1)
-  | .exit :: _, 0 => none
-  | .exit :: r, d + 1 => depthAfter r d
+  | .restoreLast :: r, d => depthAfter r d
+  | .enter _ :: r, d => depthAfter r (d + 1)
+  | .exit _ :: _, 0 => none
+  | .exit _ :: r, d + 1 => depthAfter r d
 
 /-- well-nested command sequence: every `exit` closes an `enter` of the same sequence, none left open -/
 def Balanced (cs : List Cmd) : Prop := depthAfter cs 0 = some 0
@@ -429,12 +441,17 @@ theorem run_stack {cfg : Cfg} : ∀ (cs : List Cmd) (d d' : Nat) (m : Mach) (pre
   | .op o :: r, d, d', m, pre, base, hm, hc, hd, hst, hl => by
     simp only [run]
     exact run_stack r d d' _ pre base (MachOK_step hc _ hm) hc hd (by simpa [stepCmd] using hst) hl
-  | .enter :: r, d, d', m, pre, base, hm, hc, hd, hst, hl => by
+  | .restoreLast :: r, d, d', m, pre, base, hm, hc, hd, hst, hl => by
+    simp only [run]
+    refine run_stack r d d' _ pre base (MachOK_step hc _ hm) hc hd ?_ hl
+    simp only [stepCmd]
+    cases m.last <;> simpa using hst
+  | .enter _ :: r, d, d', m, pre, base, hm, hc, hd, hst, hl => by
     simp only [run]
     refine run_stack r (d + 1) d' _ (save cfg m.st :: pre) base (MachOK_step hc _ hm) hc hd ?_ (by simp [hl])
     simp only [stepCmd, saveRaises_of_WF hm.wf, Bool.false_eq_true, if_false, hst, List.cons_append]
-  | .exit :: r, 0, d', m, pre, base, _, _, hd, _, _ => by simp [depthAfter] at hd
-  | .exit :: r, d + 1, d', m, pre, base, hm, hc, hd, hst, hl => by
+  | .exit _ :: r, 0, d', m, pre, base, _, _, hd, _, _ => by simp [depthAfter] at hd
+  | .exit _ :: r, d + 1, d', m, pre, base, hm, hc, hd, hst, hl => by
     simp only [run]
     cases pre with
     | nil => simp at hl
@@ -527,6 +544,54 @@ theorem stepOp_builtins (cfg : Cfg) (o : Op) (s : State) :
     simp only [stepOp]
     split <;> exact ⟨rfl, rfl⟩
   | _ => exact Or.inl ⟨rfl, rfl⟩
+
+/-- the `copyDefaultWhiteChars` flags of a list of built-ins (never changed by any command) -/
+def flagsOf (l : List Expr) : List Bool := l.map (·.copyDef)
+
+theorem flagsOf_assignWs : ∀ (l : List Expr) (ws : List (List Char)), flagsOf (assignWs l ws) = flagsOf l
+  | [], _ => by simp [assignWs]
+  | _ :: _, [] => by simp [assignWs]
+  | e :: es, w :: ws => by
+    simp only [assignWs, flagsOf, List.map_cons]
+    have := flagsOf_assignWs es ws
+    simp only [flagsOf] at this
+    rw [this]
+
+theorem flagsOf_setDefaultWs (c : String) (s : State) :
+    flagsOf (setDefaultWs c s).builtins = flagsOf s.builtins := by
+  simp only [setDefaultWs, flagsOf, List.map_map]
+  apply List.map_congr_left
+  intro e _
+  simp only [Function.comp]
+  split <;> rfl
+
+/-- giving the same objects back the sets they had in `l` yields `l` -/
+theorem assignWs_same : ∀ (l l' : List Expr), flagsOf l' = flagsOf l → assignWs l' (l.map (·.ws)) = l
+  | [], [], _ => rfl
+  | [], _ :: _, h => by simp [flagsOf] at h
+  | _ :: _, [], h => by simp [flagsOf] at h
+  | a :: l, b :: l', h => by
+    simp only [flagsOf, List.map_cons, List.cons.injEq] at h
+    simp only [List.map_cons, assignWs]
+    rw [assignWs_same l l' h.2]
+    cases a; cases b
+    simp_all
+
+theorem flagsOf_restoredBuiltins (s t : State) : flagsOf (restoredBuiltins s t) = flagsOf t.builtins := by
+  unfold restoredBuiltins
+  rw [flagsOf_assignWs]
+  split
+  · exact flagsOf_setDefaultWs _ _
+  · rfl
+
+/-- the built-ins come back exactly whenever the state inside still has the same built-in objects -/
+theorem restoredBuiltins_eq (s t : State) (h : flagsOf t.builtins = flagsOf s.builtins) :
+    restoredBuiltins s t = s.builtins := by
+  unfold restoredBuiltins
+  apply assignWs_same
+  split
+  · rw [flagsOf_setDefaultWs]; exact h
+  · exact h
 
 theorem enablePackratTail_users (sz : Option Int) (s : State) : (enablePackratTail sz s).users = s.users := by
   unfold enablePackratTail
